@@ -579,6 +579,13 @@ def laws(rng, tier, ctx):
         before = W.snapshot(x)
         res = pyg_base.nona(x)
         count += 1
+        # the value that marks a missing cell may be ANY NaN object, not only np.nan itself (seeded C12-w2: `value is np.nan`)
+        for nanv in (float('nan'), np.float64('nan'), np.float32('nan')):
+            alt = pyg_base.nona(x, value=nanv)
+            count += 1
+            if not W.same_pd(alt, res):
+                yield Finding('violation', case, 'nona(x, value = %r) differs from nona(x): the all-NaN rows are not removed when the NaN is another object' % (nanv,))
+                break
         labels, cols = as_rows(kind, x)
         el, ec = ref_apply('nona', None, labels, cols)
         rl, rc = as_rows(kind, res)
